@@ -17,7 +17,8 @@ pub struct H263State {
     /// External decoder options enabled on this decoder.
     decoder_options: DecoderOption,
 
-    /// The temporal reference of the last decoded picture.
+    /// The temporal reference of the last decoded picture that was not
+    /// disposable (see `disposable_picture` for those).
     ///
     /// `None` indicates that no picture has been decoded yet.
     last_picture: Option<u16>,
@@ -35,6 +36,13 @@ pub struct H263State {
 
     /// All previously-encoded reference pictures.
     reference_states: HashMap<u16, DecodedPicture>,
+
+    /// The last decoded picture, if it was a disposable one.
+    ///
+    /// Disposable pictures are never referenced, so they are kept out of
+    /// `reference_states`, where a picture with the same temporal reference
+    /// would otherwise replace the reference picture.
+    disposable_picture: Option<DecodedPicture>,
 }
 
 impl H263State {
@@ -46,6 +54,7 @@ impl H263State {
             reference_picture: None,
             running_options: PictureOption::empty(),
             reference_states: HashMap::new(),
+            disposable_picture: None,
         }
     }
 
@@ -59,7 +68,9 @@ impl H263State {
     ///
     /// If `None`, then no pictures have yet to be decoded.
     pub fn get_last_picture(&self) -> Option<&DecodedPicture> {
-        if self.last_picture.is_none() {
+        if let Some(disposable_picture) = &self.disposable_picture {
+            Some(disposable_picture)
+        } else if self.last_picture.is_none() {
             None
         } else {
             self.reference_states.get(&self.last_picture.unwrap())
@@ -480,17 +491,19 @@ impl H263State {
             }
 
             let this_tr = next_decoded_picture.as_header().temporal_reference;
-            self.last_picture = Some(this_tr);
-            if !next_decoded_picture
+            if next_decoded_picture
                 .as_header()
                 .picture_type
                 .is_disposable()
             {
+                self.disposable_picture = Some(next_decoded_picture);
+            } else {
+                self.disposable_picture = None;
+                self.last_picture = Some(this_tr);
                 self.reference_picture = Some(this_tr);
+                self.reference_states.insert(this_tr, next_decoded_picture);
+                self.cleanup_buffers();
             }
-
-            self.reference_states.insert(this_tr, next_decoded_picture);
-            self.cleanup_buffers();
 
             reader.commit();
 
